@@ -36,6 +36,7 @@ var (
 	indices  = flag.String("indices", "", "comma separated run indices (instead of -from/-to/-stride)")
 	probeOut = flag.String("probe", "", "probe the corpus with the library under test, write the sample table here and exit")
 	catFile  = flag.String("cat", "", "sample table written by -probe (the worker then executes no library code before its first run)")
+	coldOrd  = flag.Bool("coldorder", false, "cold-order oracle: only the reverse-order sequential execution of each selected run, in this fresh process")
 	freeMode = flag.Bool("free", false, "free-running mode: the library starts goroutines or blocks on channels")
 	planOnly = flag.Bool("planonly", false, "print the plans of the selected indices without executing them")
 	cpuprof  = flag.String("cpuprofile", "", "write a CPU profile (development)")
@@ -198,6 +199,14 @@ func main() {
 		p := harness.PlanRun(*seed, idx, *tier)
 		if *planOnly {
 			emit(p)
+			continue
+		}
+		if *coldOrd {
+			if p.Mode == "recycle" {
+				continue
+			}
+			emit(harness.ColdOrderRun(p))
+			runs++
 			continue
 		}
 		rec := harness.ExecRun(p)
